@@ -89,7 +89,20 @@ func enterInputDir(conf *config.Config) error {
 		if err != nil {
 			return err
 		}
+		// The go command names directories without symbolic links. Spell the directory
+		// the same way, or a setup file reached through a linked directory lies outside
+		// its module and an output path given through one is not recognized among the
+		// files of the package. The last element stays: a link there is the file itself.
+		if dir, err := filepath.EvalSymlinks(filepath.Dir(abs)); err == nil {
+			abs = filepath.Join(dir, filepath.Base(abs))
+		}
 		*p = abs
 	}
-	return os.Chdir(filepath.Dir(conf.Input))
+
+	dir := filepath.Dir(conf.Input)
+	if err := os.Chdir(dir); err != nil {
+		return err
+	}
+	// The go command takes the name of the working directory from PWD.
+	return os.Setenv("PWD", dir)
 }
